@@ -136,7 +136,20 @@ fn node_events(ci: usize, table: &Table, i: usize, t: &TsType, evs: &mut Vec<Val
 
 pub fn events_for_case(ci: usize, case: &Value) -> Vec<Value> {
     let table = Table::from_json(case);
-    let text = table.text();
+    let mut text = table.text();
+    // every third module set carries a comment in front of each definition (the backend copies those into the output): its
+    // text has what would end a TypeScript block comment and open brackets that are never closed
+    if ci % 3 == 1 {
+        let mut out = String::new();
+        for l in text.lines() {
+            if l.contains(" ::= ") && !l.contains(" DEFINITIONS ") {
+                out.push_str("-- the range is closed */ at { both [ ends ( of it\n");
+            }
+            out.push_str(l);
+            out.push('\n');
+        }
+        text = out;
+    }
     let (o, _) = run::compile_ts(&[text.clone()]);
     let status = if o.status == "ok" && !o.warnings.is_empty() { "warn".to_string() } else { o.status.clone() };
     let mut evs = vec![json!({"ev": "tsbegin", "case": ci, "status": status, "asn": text,
